@@ -788,16 +788,11 @@ func enumNullCode(fns map[string]*ast.FuncDecl, files map[string]*ast.File) stri
 	if id, isID := x.(*ast.Ident); !isID || id.Name != recv {
 		return "none"
 	}
-	text := src(y)
-	for i := 0; i < 5; i++ {
-		if v, err := strconv.ParseUint(text, 0, 16); err == nil {
-			return fmt.Sprintf("some %d", v)
-		}
-		if id, isID := y.(*ast.Ident); !isID || id.Name == recv {
-			return "none"
-		}
-		text = valueOf(files, text)
-		y = ast.NewIdent(text)
+	if id, isID := y.(*ast.Ident); isID && id.Name == recv {
+		return "none"
+	}
+	if v, ok := intConstExpr(files, y, 0); ok && v >= 0 && v < 1<<16 {
+		return fmt.Sprintf("some %d", v)
 	}
 	return "none"
 }
